@@ -4,6 +4,7 @@
 mod anz;
 mod astproj;
 mod dbg;
+mod decl;
 mod gating;
 mod gen;
 mod gram;
@@ -13,6 +14,7 @@ mod lit;
 mod parse;
 mod pipe;
 mod symtab;
+mod tyrows;
 mod types;
 mod util;
 
@@ -38,6 +40,8 @@ fn main() {
         "seq-cases" => gram::seq_cases(rest),
         "anz-cases" => anz::cases(rest),
         "inc-cases" => inc::cases(rest),
+        "decl-cases" => decl::cases(rest),
+        "ty-rows" => tyrows::rows(rest),
         "lex-cases" => lex::cases(rest),
         "lex-exhaustive" => lex::exhaustive(rest),
         "lex-record" => lex::record(rest),
